@@ -329,6 +329,7 @@ func orN(s string) string {
 
 func init() {
 	chk.Register("C01", func(c *chk.Ctx) {
+		k8sCycles(c, "C01")
 		cfgs := c01Cfgs(c)
 		gen := func(emit func(*h1.Scenario)) {
 			for _, p := range cfgs {
